@@ -182,11 +182,26 @@ def run(ctx):
 
 def language_cases(ctx, li, spec, ops, opdecls, listed, top, bottom, per_round):
     rng = ctx.rng
+    # type synonyms for the result types of some operators (canonical or not): a synonym is a name, it must not make a type canonical
+    from transforge.type import TypeAlias
+    aliases = {}
+    for k, (nm, sch) in enumerate(opdecls):
+        if sch["nvars"] == 0 and sch["nwild"] == 0 and rng.random() < 0.5:
+            t = sch["body"]
+            while not I.is_var(t) and t[0] == G.FUN:
+                t = t[1][1]
+            if not I.is_var(t) and t[1] and not any_var(t):
+                try:
+                    aliases[f"Syn{k}"] = TypeAlias(G.ty_py(t, ops))
+                except Exception:  # noqa
+                    pass
     try:
-        lang, operators = X.build_typed_language(spec, ops, opdecls, canon=listed, include_top=top, include_bottom=bottom)
+        lang, operators = X.build_typed_language(spec, ops, opdecls, canon=listed, include_top=top, include_bottom=bottom, aliases=aliases or None)
     except Exception:  # noqa
         ctx.count("language_rejected")
         return
+    if aliases:
+        ctx.count("languages_with_synonyms")
     canon = sorted(G.py_to_data(t, ops) for t in lang.canon)
     if len(canon) > 120:
         ctx.count("canon_too_large_skipped")
@@ -200,6 +215,10 @@ def language_cases(ctx, li, spec, ops, opdecls, listed, top, bottom, per_round):
     for tree in trees:
         bits = GG.gen_bits(rng)
         one_case(ctx, li, spec, ops, opdecls, lang, canon, listed, top, bottom, tree, ninputs, bits)
+
+
+def any_var(t):
+    return I.is_var(t) or any(any_var(a) for a in t[1])
 
 
 def lookthrough_family(ctx):
